@@ -95,6 +95,72 @@ Section Sim.
   Qed.
 End Sim.
 
+Lemma dq_nth_cons {A} (x : A) t k : 0 < k -> dq_nth (x :: t) k = dq_nth t (k - 1).
+Proof.
+  intros Hk. unfold dq_nth. rewrite lenN_cons.
+  destruct (lenN t <=? k - 1) eqn:E1; destruct (1 + lenN t <=? k) eqn:E2; try lia; [reflexivity|].
+  replace (N.to_nat k) with (S (N.to_nat (k - 1))) by lia. reflexivity.
+Qed.
+
+(* ------------------------------------------------------------------ *)
+(* 1b. the provided nth / nth_back: the loop [fwd_nth] over any function that steps a sequence;
+       nth_back is that loop over next_back, i.e. nth on the reversed sequence *)
+
+Section ProvLoop.
+  Context {S A : Type}.
+  Variables (stepf : S -> res (option A * S)) (abs : S -> list A) (Inv : S -> Prop).
+  Hypothesis Hstep : forall s, Inv s ->
+    exists o s', stepf s = Ok (o, s') /\ Inv s' /\ opt_out o = snd (dq_next (abs s)) /\ abs s' = fst (dq_next (abs s)).
+
+  Lemma loop_nth_sim : forall fuel s k, Inv s -> (length (abs s) < fuel)%nat ->
+    exists o s', fwd_nth stepf fuel s k = Ok (o, s') /\ Inv s' /\ opt_out o = snd (dq_nth (abs s) k) /\ abs s' = fst (dq_nth (abs s) k).
+  Proof.
+    induction fuel as [|fuel IH]; intros s k Hi Hf; [lia|]. cbn [fwd_nth].
+    destruct (Hstep s Hi) as [o [s' [H1 [H2 [H3 H4]]]]]. rewrite H1. cbn [bind fst snd].
+    destruct (abs s) as [|x t] eqn:Ea; cbn [dq_next fst snd] in H3, H4.
+    - destruct o; [discriminate|]. exists None, s'. unfold dq_nth. change (lenN (@nil A)) with 0.
+      destruct (0 <=? k) eqn:E; [|lia]. auto.
+    - destruct o as [y|]; [|discriminate]. injection H3 as ->. destruct (k =? 0) eqn:Ek.
+      + apply N.eqb_eq in Ek. subst k. exists (Some x), s'. unfold dq_nth. rewrite lenN_cons.
+        destruct (1 + lenN t <=? 0) eqn:E; [lia|]. change (N.to_nat 0) with 0%nat. cbn [skipn dq_next fst snd opt_out]. auto.
+      + cbn [length] in Hf. rewrite <- H4 in Hf.
+        destruct (IH s' (k - 1) H2 ltac:(lia)) as [o [s'' [G1 [G2 [G3 G4]]]]].
+        exists o, s''. rewrite dq_nth_cons by lia. rewrite <- H4. auto.
+  Qed.
+End ProvLoop.
+
+Lemma lenN_rev {A} (l : list A) : lenN (rev l) = lenN l.
+Proof. unfold lenN. rewrite rev_length. reflexivity. Qed.
+
+(* nth_back on a deque is nth on the reversed deque *)
+Lemma dq_nth_back_rev {A} (l : list A) k :
+  dq_nth_back l k = (rev (fst (dq_nth (rev l) k)), snd (dq_nth (rev l) k)).
+Proof.
+  unfold dq_nth_back, dq_nth. rewrite lenN_rev. destruct (lenN l <=? k) eqn:E; [reflexivity|].
+  unfold dq_next_back. rewrite skipn_rev.
+  destruct (rev (firstn (length l - N.to_nat k) l)) as [|x t]; reflexivity.
+Qed.
+
+(* DoubleEndedIterator::nth_back (provided) over a next_back that steps the sequence from the back *)
+Lemma prov_nth_back_sim {S A} (next_back : S -> res (option A * S)) (abs : S -> list A) (Inv : S -> Prop) :
+  (forall s, Inv s -> exists o s', next_back s = Ok (o, s') /\ Inv s' /\
+       opt_out o = snd (dq_next_back (abs s)) /\ abs s' = fst (dq_next_back (abs s))) ->
+  forall fuel s k, Inv s -> (length (abs s) < fuel)%nat ->
+  exists o s', prov_nth_back next_back fuel s k = Ok (o, s') /\ Inv s' /\
+    opt_out o = snd (dq_nth_back (abs s) k) /\ abs s' = fst (dq_nth_back (abs s) k).
+Proof.
+  intros Hb fuel s k Hi Hf. unfold prov_nth_back.
+  destruct (loop_nth_sim next_back (fun s => rev (abs s)) Inv) with (fuel := fuel) (s := s) (k := k) as [o [s' [H1 [H2 [H3 H4]]]]].
+  - intros s0 Hi0. destruct (Hb s0 Hi0) as [o [s' [G1 [G2 [G3 G4]]]]]. exists o, s'.
+    split; [exact G1|]. split; [exact G2|]. unfold dq_next_back in G3, G4.
+    destruct (rev (abs s0)) as [|x t]; cbn [dq_next fst snd] in *.
+    + rewrite G4. auto.
+    + rewrite G4, rev_involutive. auto.
+  - exact Hi.
+  - rewrite rev_length. exact Hf.
+  - exists o, s'. rewrite dq_nth_back_rev. cbn [fst snd]. rewrite <- H4, rev_involutive. auto.
+Qed.
+
 (* ------------------------------------------------------------------ *)
 (* 2. RichIter                                                         *)
 
@@ -214,7 +280,7 @@ Lemma rich_sim : forall s o, rich_inv s -> is_clone o = false ->
 Proof.
   intros s o Hi Hc. unfold out_ok.
   assert (Hlen : lenN (rich_abs s) = lenN (fst s) / 2) by (unfold rich_abs; rewrite lenN_map, lenN_pairs; reflexivity).
-  destruct o; cbn [m_step1 step1 rich_impl m_full m_next m_next_back m_nth m_size_hint m_count]; try discriminate.
+  destruct o; cbn [m_step1 step1 rich_impl m_full m_next m_next_back m_nth m_size_hint m_count m_nth_back]; try discriminate.
   - destruct (rich_next_sim s Hi) as [o [s' [H1 [H2 [H3 H4]]]]]. rewrite H1. cbn [bind fst snd]. exists s', (opt_out o). auto.
   - destruct (rich_next_back_sim s Hi) as [o [s' [H1 [H2 [H3 H4]]]]]. rewrite H1. cbn [bind fst snd]. exists s', (opt_out o). auto.
   - destruct (rich_nth_sim s k Hi) as [o [s' [H1 [H2 [H3 H4]]]]]. rewrite H1. cbn [bind fst snd]. exists s', (opt_out o). auto.
@@ -222,6 +288,11 @@ Proof.
     exists s, (ONum (lenN (fst s) / 2)). rewrite Hlen. auto.
   - cbn [rich_size_hint bind fst snd]. exists s, (OHint (lenN (fst s) / 2) (Some (lenN (fst s) / 2))). rewrite Hlen. auto.
   - unfold rich_count. cbn [rich_size_hint bind fst snd]. exists s, (ONum (lenN (fst s) / 2)). rewrite Hlen. auto.
+  - (* nth_back: the provided loop over rich_next_back *)
+    unfold rich_nth_back.
+    destruct (prov_nth_back_sim rich_next_back rich_abs rich_inv rich_next_back_sim (Datatypes.S (length (fst s))) s k Hi)
+      as [o [s' [H1 [H2 [H3 H4]]]]]; [unfold lenN in Hlen; lia|].
+    rewrite H1. cbn [bind fst snd]. exists s', (opt_out o). auto.
 Qed.
 
 (* every history over RichIters: the model never faults and returns the deque's outputs *)
@@ -255,13 +326,6 @@ Qed.
 
 (* ------------------------------------------------------------------ *)
 (* 3. iterators that only define next: the provided nth / count / size_hint *)
-
-Lemma dq_nth_cons {A} (x : A) t k : 0 < k -> dq_nth (x :: t) k = dq_nth t (k - 1).
-Proof.
-  intros Hk. unfold dq_nth. rewrite lenN_cons.
-  destruct (lenN t <=? k - 1) eqn:E1; destruct (1 + lenN t <=? k) eqn:E2; try lia; [reflexivity|].
-  replace (N.to_nat k) with (S (N.to_nat (k - 1))) by lia. reflexivity.
-Qed.
 
 Section FwdSim.
   Context {S A : Type}.
@@ -310,7 +374,7 @@ Section FwdSim.
                  /\ abs s' = fst (step1 false (abs s) o) /\ Inv s'.
   Proof.
     intros s o Hi Hc. destruct (Hmeasure s Hi) as [Hm1 Hm2].
-    destruct o; cbn [m_step1 step1 fwd_impl m_full m_next m_nth m_size_hint m_count]; try discriminate.
+    destruct o; cbn [m_step1 step1 fwd_impl m_full m_next m_nth m_size_hint m_count m_nth_back]; try discriminate.
     - destruct (Hnext s Hi) as [o [s' [H1 [H2 [H3 H4]]]]]. rewrite H1. cbn [bind fst snd]. exists s', (opt_out o).
       split; [reflexivity|]. split; [rewrite <- H3; apply out_ok_refl; destruct o; discriminate|]. auto.
     - exists s, OUnsupported. cbn [fst snd]. split; [reflexivity|]. split; [reflexivity|]. auto.
@@ -321,6 +385,7 @@ Section FwdSim.
     - cbn [bind fst snd]. exists s, (OHint 0 None). split; [reflexivity|]. split; [unfold out_ok; split; [lia|exact I]|]. auto.
     - rewrite fwd_count_sim by (try assumption; unfold lenN; lia). cbn [bind]. exists s, (ONum (0 + lenN (abs s))).
       split; [reflexivity|]. split; [cbn [fst snd]; unfold out_ok; f_equal|]; auto.
+    - exists s, OUnsupported. cbn [fst snd]. split; [reflexivity|]. split; [reflexivity|]. auto.
   Qed.
 
   Theorem fwd_faithful hist pool : Forall Inv pool ->
@@ -535,6 +600,15 @@ Qed.
 Section Deleg.
   Context {B A : Type}.
   Variable f : B -> A.
+  Lemma deleg_next_back_sim (l : list B) : True ->
+    exists o l', deleg_next_back f l = Ok (o, l') /\ True /\
+      opt_out o = snd (dq_next_back (map f l)) /\ map f l' = fst (dq_next_back (map f l)).
+  Proof.
+    intros _. unfold deleg_next_back, sl_next_back, dq_next_back. rewrite <- map_rev.
+    destruct (rev l) as [|x t]; cbn [map fst snd option_map opt_out].
+    - exists None, []. auto.
+    - exists (Some (f x)), (rev t). rewrite <- map_rev. auto.
+  Qed.
   Lemma deleg_sim : forall l o, True -> is_clone o = false ->
     exists l' r, m_step1 (deleg_impl f) l o = Ok (l', r) /\ out_ok true (snd (step1 true (map f l) o)) r
                  /\ map f l' = fst (step1 true (map f l) o) /\ True.
@@ -543,9 +617,9 @@ Section Deleg.
     assert (Fin : forall (l' : list B) (r : out A) X Y Z, X = Ok (l', r) -> Y = r -> map f l' = Z ->
               exists l' r, X = Ok (l', r) /\ Y = r /\ map f l' = Z /\ True).
     { intros l' r X Y Z H1 H2 H3. exists l', r. auto. }
-    destruct o; cbn [m_step1 step1 deleg_impl m_full m_next m_next_back m_nth m_size_hint m_count bind fst snd]; try discriminate.
+    destruct o; cbn [m_step1 step1 deleg_impl m_full m_next m_next_back m_nth m_size_hint m_count m_nth_back bind fst snd]; try discriminate.
     - destruct l as [|x t]; cbn [sl_next map dq_next fst snd option_map opt_out]; eapply Fin; reflexivity.
-    - unfold sl_next_back, dq_next_back. rewrite <- map_rev. destruct (rev l) as [|x t]; cbn [map fst snd option_map opt_out].
+    - unfold deleg_next_back. cbn [bind fst snd]. unfold sl_next_back, dq_next_back. rewrite <- map_rev. destruct (rev l) as [|x t]; cbn [map fst snd option_map opt_out].
       + eapply Fin; reflexivity.
       + rewrite <- map_rev. eapply Fin; reflexivity.
     - unfold sl_nth, dq_nth. rewrite lenN_map. destruct (lenN l <=? k); [cbn [fst snd option_map opt_out]; eapply Fin; reflexivity|].
@@ -553,6 +627,10 @@ Section Deleg.
     - unfold m_len. cbn [deleg_impl m_size_hint sl_size_hint bind fst snd]. rewrite N.eqb_refl, lenN_map. cbn [bind]. eapply Fin; reflexivity.
     - unfold sl_size_hint. cbn [fst snd]. rewrite lenN_map. eapply Fin; reflexivity.
     - unfold sl_count. rewrite lenN_map. eapply Fin; reflexivity.
+    - (* nth_back is not overridden: the provided loop over the iterator's own next_back *)
+      destruct (prov_nth_back_sim (deleg_next_back f) (map f) (fun _ => True) deleg_next_back_sim (Datatypes.S (length l)) l k I)
+        as [o [l' [H1 [_ [H3 H4]]]]]; [rewrite map_length; lia|].
+      rewrite H1. cbn [bind fst snd]. eapply Fin; [reflexivity|symmetry; exact H3|exact H4].
   Qed.
   Theorem deleg_faithful hist (pool : list (list B)) :
     m_run (deleg_impl f) pool hist = Ok (run true (map (map f) pool) hist).
@@ -645,7 +723,30 @@ Proof.
 Qed.
 (* an exhausted iterator stays exhausted under every call *)
 Lemma deque_exhausted {A} full (o : op) : fst (step1 (A := A) full [] o) = [].
-Proof. destruct o; cbn [step1 fst]; try reflexivity; try (destruct full; reflexivity). unfold dq_nth. rewrite skipn_nil. destruct (lenN (@nil A) <=? k); reflexivity. Qed.
+Proof.
+  destruct o; cbn [step1 fst]; try reflexivity; try (destruct full; reflexivity).
+  - unfold dq_nth. rewrite skipn_nil. destruct (lenN (@nil A) <=? k); reflexivity.
+  - destruct full; [|reflexivity]. unfold dq_nth_back. rewrite firstn_nil. destruct (lenN (@nil A) <=? k); reflexivity.
+Qed.
+
+(* nth_back k: the item with k items behind it, leaving what precedes it; none and exhausted if there is no such item *)
+Lemma dq_nth_back_meaning {A} (l0 : list A) x r k : lenN r = k -> dq_nth_back (l0 ++ x :: r) k = (l0, OItem x).
+Proof.
+  intros Hk. unfold dq_nth_back. rewrite lenN_app, lenN_cons. destruct (lenN l0 + (1 + lenN r) <=? k) eqn:E; [lia|].
+  rewrite app_length. cbn [length].
+  replace (length l0 + Datatypes.S (length r) - N.to_nat k)%nat with (length (l0 ++ [x]) + 0)%nat
+    by (rewrite app_length; cbn [length]; unfold lenN in Hk; lia).
+  replace (l0 ++ x :: r) with ((l0 ++ [x]) ++ r) by (rewrite <- app_assoc; reflexivity).
+  rewrite firstn_app_2. cbn [firstn]. rewrite app_nil_r. apply dq_next_back_meaning.
+Qed.
+Lemma dq_nth_back_none {A} (l : list A) k : lenN l <= k -> dq_nth_back l k = ([], ONone).
+Proof. intros H. unfold dq_nth_back. destruct (lenN l <=? k) eqn:E; [reflexivity|lia]. Qed.
+(* nth_back 0 is next_back *)
+Lemma dq_nth_back_0 {A} (l : list A) : dq_nth_back l 0 = dq_next_back l.
+Proof.
+  unfold dq_nth_back. destruct l as [|a t]; [reflexivity|]. rewrite lenN_cons. destruct (1 + lenN t <=? 0) eqn:E; [lia|].
+  change (N.to_nat 0) with 0%nat. rewrite Nat.sub_0_r, firstn_all. reflexivity.
+Qed.
 
 (* a concrete history on a RichIter with three records (key 0x11223344) *)
 Definition ex_key : N := 287454020.
